@@ -169,16 +169,17 @@ func c41TuplesWire(maxLen int) {
 // that bytesForSigning re-creates is the one that was received. parseTuples never panics.
 // Bound: length <= 13 covers one tuple with a nested value of up to 1 byte with a 4-byte name, or
 // two tuples with empty values (names of total length <= 1)... see the T variant.
-func Verif_C41_TuplesWire() { c41TuplesWire(13) }
+func Verif_C41_TuplesWire() { c40On = true; c41TuplesWire(13) }
 
 // Verif_C41_TuplesWireT: same for lengths 0..22 (two tuples with nested values fit:
 // 4+1+4+4+0 + 4+1+4 = 22).
-func Verif_C41_TuplesWireT() { c41TuplesWire(22) }
+func Verif_C41_TuplesWireT() { c40On = true; c41TuplesWire(22) }
 
 // Verif_C41_TuplesFields: (R) for maps with 0..2 entries, keys of 0..2 symbolic bytes and values of
 // 0..2 symbolic bytes: parseTuples(marshalTuples(m)) succeeds and returns a map equal to m; the
 // encoding lists keys in strictly increasing order.
 func Verif_C41_TuplesFields() {
+	c40On = true // this author's engine stubs (see zz_verif_stubs.go)
 	cnt := verifrt.Choose(0, 2)
 	m := map[string]string{}
 	var keys, vals []string
@@ -211,6 +212,7 @@ func Verif_C41_TuplesFields() {
 // of 1..2 symbolic bytes, empty data) iff the names are strictly increasing in byte-wise
 // lexical order (sorted, no duplicates), as PROTOCOL.certkeys requires.
 func Verif_C41_TuplesOrder() {
+	c40On = true // this author's engine stubs (see zz_verif_stubs.go)
 	cnt := verifrt.Choose(2, 3)
 	var names []string
 	var in []byte
@@ -336,20 +338,20 @@ func c41WireRoundTrip(maxSmall, maxOpt, maxExt, maxPrinc int) {
 // CA signed), and an accepting CheckCert asked the CA key about exactly that prefix. The outer
 // length fields are concrete (determined by the sizes above). 13 bytes hold one option with a
 // one-byte name or value, or two empty-valued options (4+1+4 + 4+0+4 = 17 does not fit: see T).
-func Verif_C41_WireOpts() { c41WireRoundTrip(0, 13, 0, 0) }
+func Verif_C41_WireOpts() { c40On = true; c41WireRoundTrip(0, 13, 0, 0) }
 
 // Verif_C41_WireExts: same with the extensions blob symbolic (0..13 bytes), options empty.
-func Verif_C41_WireExts() { c41WireRoundTrip(0, 0, 13, 0) }
+func Verif_C41_WireExts() { c40On = true; c41WireRoundTrip(0, 0, 13, 0) }
 
 // Verif_C41_WireOther: nonce, key id, reserved 0..2 symbolic bytes each, principals blob 0..10
 // bytes fully symbolic, options and extensions empty.
-func Verif_C41_WireOther() { c41WireRoundTrip(2, 0, 0, 10) }
+func Verif_C41_WireOther() { c40On = true; c41WireRoundTrip(2, 0, 0, 10) }
 
 // Verif_C41_WireOptsT / ExtsT / BothT: thorough bounds: one blob up to 21 bytes (two tuples, one
 // of them with a nested value); both blobs up to 12 bytes at once.
-func Verif_C41_WireOptsT() { c41WireRoundTrip(0, 21, 0, 0) }
-func Verif_C41_WireExtsT() { c41WireRoundTrip(0, 0, 21, 0) }
-func Verif_C41_WireBothT() { c41WireRoundTrip(0, 12, 12, 0) }
+func Verif_C41_WireOptsT() { c40On = true; c41WireRoundTrip(0, 21, 0, 0) }
+func Verif_C41_WireExtsT() { c40On = true; c41WireRoundTrip(0, 0, 21, 0) }
+func Verif_C41_WireBothT() { c40On = true; c41WireRoundTrip(0, 12, 12, 0) }
 
 // ---------------------------------------------------------------------------------------------
 // fields -> wire -> fields (R)
@@ -493,12 +495,12 @@ func c41FieldsRoundTrip(maxSmall, maxTup, maxTupLen, maxPrinc int) {
 // extensions (name and value 0..1 symbolic bytes, distinct names): Marshal() equals an
 // independent transcription of the PROTOCOL.certkeys layout, bytesForSigning() is its prefix up to
 // and including the signature key, and ParsePublicKey(Marshal()) returns equal fields.
-func Verif_C41_FieldsRoundTrip() { c41FieldsRoundTrip(1, 1, 1, 2) }
+func Verif_C41_FieldsRoundTrip() { c40On = true; c41FieldsRoundTrip(1, 1, 1, 2) }
 
 // Verif_C41_FieldsRoundTripT: 0..2 options and 0..2 extensions (names/values 0..1 bytes, so the
 // sorting of two names is exercised), Nonce/KeyId/Reserved empty, 0..1 principals. (2,2,2,3)
 // exceeds 25 min: 38k+ paths.
-func Verif_C41_FieldsRoundTripT() { c41FieldsRoundTrip(0, 2, 1, 1) }
+func Verif_C41_FieldsRoundTripT() { c40On = true; c41FieldsRoundTrip(0, 2, 1, 1) }
 
 // ---------------------------------------------------------------------------------------------
 // CheckCert policy (K)
@@ -638,13 +640,13 @@ func c41SignedWant(c *Certificate) []byte {
 // answer: accepts iff ValidAfter <= now < ValidBefore and principal listed (or list empty) and
 // all options supported and not revoked and the signature verdict is positive; on acceptance the
 // data verified is the signed prefix.
-func Verif_C41_CheckCert() { c41Policy(false, 1, 1, 1) }
+func Verif_C41_CheckCert() { c40On = true; c41Policy(false, 1, 1, 1) }
 
 // Verif_C41_CheckCertT: thorough bounds (0..2 principals, options, supported names).
-func Verif_C41_CheckCertT() { c41Policy(false, 2, 2, 2) }
+func Verif_C41_CheckCertT() { c40On = true; c41Policy(false, 2, 2, 2) }
 
 // Verif_C41_CheckCertTimeFull: the same decision with ValidBefore over ALL uint64 values.
-func Verif_C41_CheckCertTimeFull() { c41Policy(true, 0, 0, 0) }
+func Verif_C41_CheckCertTimeFull() { c40On = true; c41Policy(true, 0, 0, 0) }
 
 // ---------------------------------------------------------------------------------------------
 // Authenticate / CheckHostKey
@@ -667,6 +669,7 @@ func (c c41Conn) LocalAddr() net.Addr   { return nil }
 // (asked with the dialled address) and the host part of the address as principal. A key that is
 // not a certificate is rejected when no fallback is configured.
 func Verif_C41_Entry() {
+	c40On = true // this author's engine stubs (see zz_verif_stubs.go)
 	rec := &c41RecKey{inner: ed25519PublicKey(verifrt.Bytes(32)), verdict: verifrt.Bool()}
 	cert := &Certificate{
 		Key:             ed25519PublicKey(verifrt.Bytes(32)),
